@@ -752,11 +752,14 @@ class FamTimeFixed(Fam):
             return {'treatment': rng.choice(['all', 'none', 'all', 'none', "g['W0'] > 0", "(g['C0']==1) | (g['W1']<0)"]),
                     'predict_missing': rng.random() < 0.8}
         a = dict(rng.choice(PLANS))
-        a.update({'method': 'fit_stochastic', 'seed': rng.choice([0, 0, 1, rng.randrange(10 ** 6), 2 ** 32 - 1]), 'samples': rng.choice([5, 10])})   # boundary seeds are valid seeds
+        a.update({'method': 'fit_stochastic', 'seed': rng.choice([0, 0, 1, rng.randrange(10 ** 6), 2 ** 32 - 1, None, None]), 'samples': rng.choice([5, 10]),
+                  'gseed': rng.randrange(10 ** 6)})   # boundary seeds are valid seeds; None = the caller seeds the global generator
         return a
 
     def do_fit(self, o, a, inp):
         if a.get('method') == 'fit_stochastic':
+            if a['seed'] is None:
+                np.random.seed(a['gseed'])
             if a.get('cond'):
                 o.fit_stochastic(p=inp['p_pair'] if a['p'][0] == 0.75 else list(a['p']), conditional=inp['conditional'], samples=a['samples'], seed=a['seed'])
             else:
@@ -995,10 +998,14 @@ class FamStochTMLE(Fam):
 
     def gen_fit(self, rng, cfg):
         a = dict(rng.choice(PLANS))
-        a.update({'samples': rng.choice([5, 12]), 'seed': rng.choice([0, 0, 1, rng.randrange(10 ** 6), 2 ** 32 - 1])})
+        # seed=None: the caller seeds numpy's global generator himself (gseed) -- an earlier seeded fit must not stick to the object
+        a.update({'samples': rng.choice([5, 12]), 'seed': rng.choice([0, 0, 1, rng.randrange(10 ** 6), 2 ** 32 - 1, None, None]),
+                  'gseed': rng.randrange(10 ** 6)})
         return a
 
     def do_fit(self, o, a, inp):
+        if a['seed'] is None:
+            np.random.seed(a['gseed'])
         if a.get('cond'):
             o.fit(p=inp['p_pair'] if a['p'][0] == 0.75 else inp['p_arr'], conditional=inp['conditional'], samples=a['samples'], seed=a['seed'])
         else:
